@@ -21,6 +21,7 @@ RULE = (
     'parameter; setters also under a distinct custom constraint per parameter; distinct = cell without seed; non-trivial iff >=1 finite bound '
     '(constraint) / value != default (setter)'
     '; pass 5: one prior object registered for several parameters (by closure and by name)'
+    '; pass 6: constraint bounds loaded from a state dict saved with other bounds (Interval, GreaterThan, LessThan)'
 )
 REQUIRED = ["transform_in_bounds", "transform_monotone", "inverse_roundtrip", "setter_roundtrip", "out_of_bounds_rejected", "invariant_after_mutation", "prior_log_prob", "prior_normalised", "prior_closure_sees_constrained", "sample_from_prior_readback"]
 ASSUMPTIONS = [
